@@ -3,6 +3,7 @@
 package tbtc
 
 import (
+	"sync"
 	"bytes"
 	"crypto/sha256"
 	"encoding/binary"
@@ -102,10 +103,36 @@ func (w *c34World) walletUtxos(list []*bitcoin.Transaction) []*bitcoin.UnspentTr
 // c34Btc serves the world through bitcoin.Chain. Methods that the wallet
 // history functions have no business calling are left to the nil embedded
 // interface (a call panics and is reported).
+// c34Fault fails the dependency call with the given ordinal (1-based), over
+// the Bitcoin client and the Bridge together. failAt <= 0: never.
+type c34Fault struct {
+	mu     sync.Mutex
+	failAt int
+	calls  int
+	failed int
+}
+
+var errC34Fault = fmt.Errorf("c34: scripted transient failure of a dependency")
+
+func (f *c34Fault) hit() bool {
+	if f == nil {
+		return false
+	}
+	f.mu.Lock()
+	defer f.mu.Unlock()
+	f.calls++
+	if f.calls == f.failAt {
+		f.failed++
+		return true
+	}
+	return false
+}
+
 type c34Btc struct {
 	bitcoin.Chain
 	w     *c34World
 	calls map[string]int
+	flt   *c34Fault
 }
 
 func (c *c34Btc) find(h bitcoin.Hash) (*bitcoin.Transaction, int, bool) {
@@ -123,6 +150,9 @@ func (c *c34Btc) find(h bitcoin.Hash) (*bitcoin.Transaction, int, bool) {
 }
 
 func (c *c34Btc) GetTransaction(h bitcoin.Hash) (*bitcoin.Transaction, error) {
+	if c.flt.hit() {
+		return nil, errC34Fault
+	}
 	c.calls["GetTransaction"]++
 	if tx, _, ok := c.find(h); ok {
 		return tx, nil
@@ -131,6 +161,9 @@ func (c *c34Btc) GetTransaction(h bitcoin.Hash) (*bitcoin.Transaction, error) {
 }
 
 func (c *c34Btc) GetTransactionConfirmations(h bitcoin.Hash) (uint, error) {
+	if c.flt.hit() {
+		return 0, errC34Fault
+	}
 	c.calls["GetTransactionConfirmations"]++
 	if _, i, ok := c.find(h); ok {
 		if i < 0 {
@@ -158,6 +191,9 @@ func (c *c34Btc) history(pkh [20]byte, list []*bitcoin.Transaction) []*bitcoin.T
 }
 
 func (c *c34Btc) GetTransactionsForPublicKeyHash(pkh [20]byte, limit int) ([]*bitcoin.Transaction, error) {
+	if c.flt.hit() {
+		return nil, errC34Fault
+	}
 	c.calls["GetTransactionsForPublicKeyHash"]++
 	h := c.history(pkh, c.w.confirmed)
 	if len(h) > limit {
@@ -167,6 +203,9 @@ func (c *c34Btc) GetTransactionsForPublicKeyHash(pkh [20]byte, limit int) ([]*bi
 }
 
 func (c *c34Btc) GetTxHashesForPublicKeyHash(pkh [20]byte) ([]bitcoin.Hash, error) {
+	if c.flt.hit() {
+		return nil, errC34Fault
+	}
 	c.calls["GetTxHashesForPublicKeyHash"]++
 	out := []bitcoin.Hash{}
 	for _, tx := range c.history(pkh, c.w.confirmed) {
@@ -176,11 +215,17 @@ func (c *c34Btc) GetTxHashesForPublicKeyHash(pkh [20]byte) ([]bitcoin.Hash, erro
 }
 
 func (c *c34Btc) GetMempoolForPublicKeyHash(pkh [20]byte) ([]*bitcoin.Transaction, error) {
+	if c.flt.hit() {
+		return nil, errC34Fault
+	}
 	c.calls["GetMempoolForPublicKeyHash"]++
 	return c.history(pkh, c.w.mempool), nil
 }
 
 func (c *c34Btc) GetUtxosForPublicKeyHash(pkh [20]byte) ([]*bitcoin.UnspentTransactionOutput, error) {
+	if c.flt.hit() {
+		return nil, errC34Fault
+	}
 	c.calls["GetUtxosForPublicKeyHash"]++
 	if pkh != c.w.pkh {
 		return nil, nil
@@ -189,6 +234,9 @@ func (c *c34Btc) GetUtxosForPublicKeyHash(pkh [20]byte) ([]*bitcoin.UnspentTrans
 }
 
 func (c *c34Btc) GetMempoolUtxosForPublicKeyHash(pkh [20]byte) ([]*bitcoin.UnspentTransactionOutput, error) {
+	if c.flt.hit() {
+		return nil, errC34Fault
+	}
 	c.calls["GetMempoolUtxosForPublicKeyHash"]++
 	if pkh != c.w.pkh {
 		return nil, nil
@@ -199,10 +247,14 @@ func (c *c34Btc) GetMempoolUtxosForPublicKeyHash(pkh [20]byte) ([]*bitcoin.Unspe
 // c34Bridge serves the Bridge view.
 type c34Bridge struct {
 	BridgeChain
-	w *c34World
+	w   *c34World
+	flt *c34Fault
 }
 
 func (b *c34Bridge) GetWallet(pkh [20]byte) (*WalletChainData, error) {
+	if b.flt.hit() {
+		return nil, errC34Fault
+	}
 	if b.w.walletErr || pkh != b.w.pkh {
 		return nil, fmt.Errorf("c34: no wallet for the given public key hash")
 	}
@@ -214,6 +266,9 @@ func (b *c34Bridge) ComputeMainUtxoHash(u *bitcoin.UnspentTransactionOutput) [32
 }
 
 func (b *c34Bridge) GetDepositRequest(h bitcoin.Hash, i uint32) (*DepositChainRequest, bool, error) {
+	if b.flt.hit() {
+		return nil, false, errC34Fault
+	}
 	if b.w.deposits[c34Outpoint{h, i}] {
 		return &DepositChainRequest{Amount: 1, RevealedAt: time.Unix(1700000000, 0)}, true, nil
 	}
@@ -221,6 +276,9 @@ func (b *c34Bridge) GetDepositRequest(h bitcoin.Hash, i uint32) (*DepositChainRe
 }
 
 func (b *c34Bridge) GetMovedFundsSweepRequest(h bitcoin.Hash, i uint32) (*MovedFundsSweepRequest, bool, error) {
+	if b.flt.hit() {
+		return nil, false, errC34Fault
+	}
 	if b.w.movedFunds[c34Outpoint{h, i}] {
 		return &MovedFundsSweepRequest{WalletPublicKeyHash: b.w.pkh, Value: 1, State: MovedFundsStatePending}, true, nil
 	}
@@ -713,6 +771,83 @@ func TestVerif_C34_SpentMainUtxos(t *testing.T) {
 					r.Violation("sync:main-utxo:false-failure", "the sync check failed for an unspent main UTXO: "+serr.Error(), desc,
 						map[string]interface{}{"main_utxo": c34DescribeUtxo(u), "world": c34DescribeWorld(w)})
 				}
+			}
+		}
+	})
+}
+
+// TestVerif_C34_UnderDependencyFaults: every call the two functions make to
+// the Bitcoin client or the Bridge fails once, in turn. Failing is fine; an
+// answer given anyway must be the right one - above all the sync check must
+// not pass for a wallet that is not in sync.
+func TestVerif_C34_UnderDependencyFaults(t *testing.T) {
+	r := verifkit.Start(t, "C34", "dependency-faults")
+	defer r.Finish()
+	r.SetRule("the worlds of the main monitor; DetermineWalletMainUtxo and EnsureWalletSyncedBetweenChains are re-run once per dependency call ordinal (Bitcoin client and Bridge together) with that call failing transiently. Outcome error: accepted. Outcome answer: the lookup must return the reference main UTXO, the sync check may pass only if the reference says the wallet is in sync. Non-trivial: the scripted failure was hit.")
+	n := r.N(500, 8000)
+	verifkit.Parallel(n, 0, func(i int) {
+		rng := r.SubRand("world", i)
+		w, _ := c34Generate(rng)
+		want, wantErr := c34RefMainUtxo(w)
+		base := fmt.Sprintf("world#%d seed=%d %v", i, r.Seed(), w.script)
+		// ---- lookup
+		count := &c34Fault{}
+		r.Guard("faults:lookup:", base, func() {
+			_, _ = DetermineWalletMainUtxo(w.pkh, &c34Bridge{w: w, flt: count}, &c34Btc{w: w, calls: map[string]int{}, flt: count})
+		})
+		for k := 1; k <= count.calls; k++ {
+			f := &c34Fault{failAt: k}
+			desc := fmt.Sprintf("%s | lookup, dependency call %d fails", base, k)
+			var got *bitcoin.UnspentTransactionOutput
+			var err error
+			if r.Guard("faults:lookup:", desc, func() {
+				got, err = DetermineWalletMainUtxo(w.pkh, &c34Bridge{w: w, flt: f}, &c34Btc{w: w, calls: map[string]int{}, flt: f})
+			}) {
+				continue
+			}
+			r.Case(desc, f.failed > 0)
+			if err != nil {
+				r.Count("lookups_that_gave_up", 1)
+				continue
+			}
+			switch {
+			case wantErr:
+				r.Violation("faults:lookup:no-error", "after a failed dependency call the lookup returned a result although no wallet output has the registered hash", desc, map[string]interface{}{"got": c34DescribeUtxo(got)})
+			case want == nil && got != nil:
+				r.Violation("faults:lookup:utxo-for-unregistered", "after a failed dependency call a main UTXO was returned although none is registered", desc, map[string]interface{}{"got": c34DescribeUtxo(got)})
+			case want != nil && (got == nil || got.Outpoint == nil || got.Outpoint.TransactionHash != want.Outpoint.TransactionHash || got.Outpoint.OutputIndex != want.Outpoint.OutputIndex || got.Value != want.Value):
+				r.Violation("faults:lookup:wrong-utxo", "after a failed dependency call the lookup returned a main UTXO that is not the registered one", desc, map[string]interface{}{"got": c34DescribeUtxo(got), "want": c34DescribeUtxo(want)})
+			}
+		}
+		// ---- sync check
+		if wantErr {
+			return
+		}
+		wantOK := c34RefSynced(w, want)
+		count = &c34Fault{}
+		r.Guard("faults:sync:", base, func() {
+			_ = EnsureWalletSyncedBetweenChains(w.pkh, want, &c34Bridge{w: w, flt: count}, &c34Btc{w: w, calls: map[string]int{}, flt: count})
+		})
+		for k := 1; k <= count.calls; k++ {
+			f := &c34Fault{failAt: k}
+			desc := fmt.Sprintf("%s | sync check, dependency call %d fails", base, k)
+			var serr error
+			if r.Guard("faults:sync:", desc, func() {
+				serr = EnsureWalletSyncedBetweenChains(w.pkh, want, &c34Bridge{w: w, flt: f}, &c34Btc{w: w, calls: map[string]int{}, flt: f})
+			}) {
+				continue
+			}
+			r.Case(desc, f.failed > 0)
+			if serr != nil {
+				r.Count("sync_checks_that_gave_up", 1)
+				continue
+			}
+			if f.failed > 0 {
+				r.Count("sync_checks_passed_despite_the_failure", 1)
+			}
+			if !wantOK {
+				r.Violation("faults:sync:false-pass", "after a failed dependency call the sync check passed although the wallet has acted on Bitcoin beyond what the Bridge knows", desc,
+					map[string]interface{}{"main_utxo": c34DescribeUtxo(want), "world": c34DescribeWorld(w)})
 			}
 		}
 	})
